@@ -7,7 +7,7 @@
    (K-outer) SPEC (coq/C01/Spec.v: must-value / must-error / either) vs the implementation under the
         ASan build, over a value lattice; after errors a probe program is evaluated in the same context."""
 import os, subprocess, json, time
-from vlib import build as B, scm
+from vlib import build as B, scm, core
 from gen import c01_vmguards, c01_stack, c01_consts
 
 HERE = os.path.dirname(os.path.abspath(__file__))
@@ -85,7 +85,7 @@ FLUSH_CASE = r"""
 """
 
 
-def run_cases(d, exprs, prelude_extra="", imports="", timeout=900, extra_env=None, chunk=1500, max_crashes=12):
+def run_cases(d, exprs, prelude_extra="", imports="", timeout=900, extra_env=None, chunk=1500, max_crashes=6):
     """like vlib.scm.run_cases, but every answer is flushed before the next case starts (a sanitizer abort loses
     buffered output, which would blame the wrong case), and a dead process is restarted after the guilty case"""
     res = [None] * len(exprs)
@@ -263,19 +263,26 @@ def run(ctx):
     try:
         t = c01_vmguards.regen(ctx)
     except c01_vmguards.Unsupported as u:
-        ctx.broken("gen:C01_VmGuards", "translator failed closed: %s" % u)
-        return
+        ctx.broken("gen:C01_VmGuards", "translator failed closed: %s (the previous table, if any, stays in place; only the SPEC streams are meaningful)" % u)
+        t = dict(names=[], msgs={}, items={}, skipped={}, sha="?")
+    tstack = dict(req="?", cond="?", sites=["?"])
     try:
         tstack = c01_stack.regen(ctx)
+    except c01_vmguards.Unsupported as u:
+        ctx.broken("gen:C01_Stack", "translator failed closed: %s (stale Gen/C01_Stack.v stays in place; the stack stream still runs)" % u)
+    try:
         tconst = c01_consts.regen(ctx)
     except c01_vmguards.Unsupported as u:
-        ctx.broken("gen:C01_Stack/Consts", "translator failed closed: %s" % u)
+        ctx.broken("gen:C01_Consts", "translator failed closed: %s" % u)
         return
     ctx.note("stack arithmetic regenerated from sexp_grow_stack / sexp_ensure_stack (request %s when %s); ensure_stack call sites: %s"
              % (tstack["req"], tstack["cond"], tstack["sites"][1:]))
     ctx.note("guard table regenerated from vm.c switch sha %s: %d opcodes translated (%s); skipped (use the accessors, outside the "
              "translated subset, NOT covered by vm_ops_guarded): %s" % (t["sha"], len(t["names"]), " ".join(n[8:] for n in t["names"]),
                                                                        "; ".join("%s: %s" % (k[8:], v) for k, v in sorted(t["skipped"].items()))))
+    if t.get("untouched"):
+        ctx.note("opcode cases that do not use the modelled accessors (not in the table; heap access, if any, through other typed "
+                 "accessors): %s" % " ".join(n.replace("SEXP_OP_", "") for n in t["untouched"]))
     unknown = [n for n in t["names"] if any("AUnknown" in it for it in t["items"][n])]
     missing = [p for p, (lab, _) in PRIMS.items() if lab not in t["names"]]
     if missing:
@@ -285,6 +292,16 @@ def run(ctx):
     t0 = time.time()
     thm_ok = ctx.coq_obligations("Properties_C01")
     ph["coq"] = round(time.time() - t0, 1)
+    if ctx.thorough and thm_ok:
+        t0 = time.time()
+        with core.CoqLock(files=[os.path.join(core.COQ, "Properties_C01.v")]):
+            r = core.sh("timeout 1500 coqchk -o -silent -Q . ChibiV ChibiV.Properties_C01", cwd=core.COQ)
+        ok = r.returncode == 0
+        ctx.obligations.append(("coqchk:Properties_C01", ok, None))
+        ctx.checker_cmds.append("cd coq && coqchk -o -silent -Q . ChibiV ChibiV.Properties_C01")
+        if not ok:
+            ctx.broken("coqchk:Properties_C01", "coqchk rejects the compiled closure: %s" % (r.stdout + r.stderr)[-800:])
+        ph["coqchk"] = round(time.time() - t0, 1)
     dflt = ctx.build("default")
     d = ctx.build("asan")
     exe = ctx.extract("C01")
@@ -454,6 +471,52 @@ def run_harness(emb, d, lines):
     return res
 
 
+SEED_SOURCES = [
+    b'(define (f x) (if (< x 2) x (+ (f (- x 1)) (f (- x 2))))) (f 10)', b'"a\\n\\t\\x41;b\\\\ \\"q\\" \xce\xbb"', b"#\\a #\\space #\\x3bb #\\newline #\\\xe2\x82\xac",
+    b"(1 2 . 3) #(1 #(2) \"s\") #u8(0 255 17) '(a . (b . (c)))", b"#0=(a b . #0#) #1=#(1 #1#)", b"`(1 ,(+ 1 1) ,@(list 3 4) . 5)",
+    b"#e1.5 #i3/4 #x-ff #b1011 #o777 1e10 -0.0 +inf.0 -nan.0 1/3 +i 1@2 123456789012345678901234567890", b"|sym with space| |a\\x41;b| abc->def ... + - <=?",
+    b"#| block #| nested |# comment |# #;(datum comment) 42 ; line\n43", b"(let-values (((a b) (values 1 2))) (vector a b))", b"#t #f #true #false #!eof",
+    b"(define-syntax sw (syntax-rules () ((_ a b) (let ((t a)) (set! a b) (set! b t))))) (let ((x 1) (y 2)) (sw x y) (list x y))",
+    b"(call-with-current-continuation (lambda (k) (dynamic-wind (lambda () 1) (lambda () (k 2)) (lambda () 3))))", b"(string->number \"1e400\") (exact->inexact 1/3)",
+    b"(guard (e ((symbol? e) e)) (raise 'boom))", b"(let loop ((i 0) (acc '())) (if (= i 5) (reverse acc) (loop (+ i 1) (cons (* i i) acc))))",
+    b"(apply string-append (map symbol->string '(a b c)))", b"(bytevector-u8-ref #u8(1 2 3) 1) (string-ref \"abc\" 1) (vector-ref #(1 2 3) 2)",
+]
+
+
+def malformed_sources(rng, n):
+    out = []
+    for _ in range(n):
+        b = bytearray(rng.choice(SEED_SOURCES))
+        k = rng.random()
+        for _ in range(rng.choice([1, 1, 2, 3, 6])):
+            if not b:
+                break
+            i = rng.randrange(len(b))
+            op = rng.choice(["flip", "ins", "del", "dup", "trunc", "paren", "digit", "hash"])
+            if op == "flip":
+                b[i] = rng.choice([0, 1, 0x7f, 0x80, 0xbf, 0xc0, 0xe2, 0xf0, 0xf8, 0xff, ord("("), ord(")"), ord("#"), ord("\\"), ord('"'), ord("|"), rng.randrange(256)])
+            elif op == "ins":
+                b[i:i] = bytes(rng.choice([b"(", b")", b"#", b"\\", b'"', b"|", b"#;", b"#|", b"'", b",@", b"#0=", b"#0#", b"\\x", b"\xf0\x9f", b".", b" . "]))
+            elif op == "del":
+                del b[i:i + rng.choice([1, 1, 2, 5])]
+            elif op == "dup":
+                j = min(len(b), i + rng.choice([1, 3, 10]))
+                b[i:i] = b[i:j] * rng.choice([2, 10, 200])
+            elif op == "trunc":
+                del b[i:]
+            elif op == "paren":
+                d_ = rng.choice([50, 500, 5000])
+                b = bytearray(b"(" * d_) + b + (bytearray(b")" * d_) if rng.random() < 0.5 else bytearray())
+            elif op == "digit":
+                b[i:i] = bytes(rng.choice([b"9" * 400, b"1e99999", b"#x" + b"f" * 300, b"1/" + b"0" * 50, b"." * 5]))
+            else:
+                b[i:i] = bytes(rng.choice([b"#u8(", b"#(", b"#\\x110000", b"#\\xd800", b"#99999999999=", b"#!fold-case", b"#e#x", b"#d1.5e"]))
+        b = bytes(b).replace(b"\x00", b" ").replace(b"\n", b" ")[:60000]
+        if b:
+            out.append(b)
+    return out
+
+
 def prims_stream(ctx, exe, d, rng, consts, n):
     emb = B.cc_embed(d, os.path.join(HERE, "..", "harness", "embed_c01.c"), os.path.join(d, "embed_c01"))
     H, M, J = [], [], []      # harness lines, model lines, judge info
@@ -536,6 +599,15 @@ def prims_stream(ctx, exe, d, rng, consts, n):
         H.append("eval " + p_.encode().hex())
         M.append(None)
         J.append(dict(f="eval", prog=p_))
+    # malformed-source stream: byte mutations of small sources that use every lexical form, fed to the reader alone
+    # and to read+eval; the answer must be a value or an exception object and the context must survive
+    for src in malformed_sources(rng, 300 if not ctx.thorough else 20000):
+        f_ = rng.choice(["read", "read", "eval"])
+        if b"loop" in src or b"(f " in src or b"define-syntax" in src:
+            f_ = "read"        # mutated loops may not terminate: only the reader sees them
+        H.append("%s %s" % (f_, src.hex()))
+        M.append(None)
+        J.append(dict(f=f_, prog=src.decode("latin-1")))
     mo = ctx.run_model(exe, [m for m in M if m is not None])
     io = run_harness(emb, d, H)
     k = 0
@@ -557,7 +629,7 @@ def prims_stream(ctx, exe, d, rng, consts, n):
                           observed=r, replay=rep)
             continue
         r = r[:-2]
-        if f == "eval":
+        if f in ("eval", "read"):
             if not (r.startswith("E ") or r.startswith("V ")):
                 ctx.violation("eval:outcome", input=j["prog"][:200], expected="value or exception object", observed=r, replay=rep)
             continue
@@ -607,18 +679,26 @@ def stack_stream(ctx, exe, d, rng, consts):
     pre = ("(define (deep k m f) (if (= k 0) (apply f (make-list m 1)) (+ 1 (deep (- k 1) m f))))"
            "(define (count . args) (length args)) (define (rest1 a . r) (+ a (length r)))"
            "(define (down n) (if (= n 0) 0 (+ 1 (down (- n 1)))))")
-    exprs, exp = [], []
-    ms = sorted({10, init - 70, init - 1, init, init + 1, 2 * init, 2 * init + 1, 4 * init + 3, 10 * init, 40000, 100000} | {rng.randrange(init, 50 * init) for _ in range(6)})
-    ds = [0, 3, 50, init // 8, init // 2, init, 3 * init]
-    for m in ms:
-        for dd in ds:
-            if rng.random() < (0.5 if not ctx.thorough else 1.0):
-                fn = rng.choice(["+", "count", "rest1"])
-                exprs.append("(deep %d %d %s)" % (dd, m, fn))
-                exp.append("f%x" % (dd + m))
-    for n in (init // 2, init, 3 * init, 20 * init):
-        exprs.append("(down %d)" % n)
-        exp.append("f%x" % n)
+    if ctx.thorough:
+        ms = sorted({10, init - 70, init - 1, init, init + 1, 2 * init, 2 * init + 1, 4 * init + 3, 10 * init, 40000, 100000} | {rng.randrange(init, 50 * init) for _ in range(6)})
+        ds = [0, 3, 50, init // 8, init // 2, init, 2 * init - 48, 3 * init]
+        orders = ("desc", "shuffled")
+    else:
+        ms = sorted({10, init - 1, init + 1, 2 * init + 1, 10 * init, 40000, rng.randrange(init, 50 * init)})
+        ds = [0, init // 8, init, 3 * init]
+        orders = ("desc",)
+    # a grown stack never shrinks, so each group runs in a process of its own and asks for its largest jump first
+    groups = []
+    for dd in ds:
+        for order in orders:
+            g = [(dd, m, rng.choice(["+", "count", "rest1"])) for m in ms if rng.random() < 0.8]
+            if order == "desc":
+                g.sort(key=lambda c: -c[1])
+            else:
+                rng.shuffle(g)
+            groups.append(g)
+    groups.append([(2000, 40000, "+")])          # the input of F-C01-3
+    groups.append([("down", n) for n in (init // 2, init, 3 * init, 20 * init)])
     # model side: the regenerated ensure_stack on the same magnitudes never answers a too-small stack
     reqs = []
     for m in ms:
@@ -633,19 +713,25 @@ def stack_stream(ctx, exe, d, rng, consts):
         ctx.count(1, key=("ensure",) + q)
         if not ok:
             ctx.broken("stack:gen_ensure_stack", "regenerated sexp_ensure_stack(MAX=%d,len=%d,top=%d,n=%d) answers %s" % (q + (o,)))
-    io = run_cases(d, exprs, prelude_extra=pre, timeout=900, extra_env=ASAN_ENV)
-    for e, x, r in zip(exprs, exp, io):
-        ctx.count(1, key=e)
-        rep = replay_cmd(d, "(begin %s %s)" % (pre, e))
-        if r == "SKIPPED":
-            continue
-        if r is None or r.startswith("CRASH") or r == "TIMEOUT":
-            ctx.violation("stack:%s:crash" % e.split()[0].strip("("), input=e, expected=x, observed=r, replay=rep)
-        elif r != x:
-            if r.startswith("ERR"):
-                ctx.broken("stack:unexpected-error", "%s answered %s" % (e, r))
-            else:
-                ctx.violation("stack:wrong-value", input=e, expected=x, observed=r, replay=rep)
+    first = None
+    for g in groups:
+        exprs = ["(down %d)" % c[1] if c[0] == "down" else "(deep %d %d %s)" % c for c in g]
+        exp = ["f%x" % c[1] if c[0] == "down" else "f%x" % (c[0] + c[1]) for c in g]
+        io = run_cases(d, exprs, prelude_extra=pre, timeout=900, extra_env=ASAN_ENV, max_crashes=2)
+        if first is None and exprs:
+            first = (exprs[0], exp[0], io[0])
+        for e, x, r in zip(exprs, exp, io):
+            ctx.count(1, key=e)
+            rep = replay_cmd(d, "(begin %s %s)" % (pre, e))
+            if r == "SKIPPED":
+                continue
+            if r is None or r.startswith("CRASH") or r == "TIMEOUT":
+                ctx.violation("stack:%s:crash" % e.split()[0].strip("("), input=e, expected=x, observed=r, replay=rep)
+            elif r != x:
+                if r.startswith("ERR"):
+                    ctx.broken("stack:unexpected-error", "%s answered %s" % (e, r))
+                else:
+                    ctx.violation("stack:wrong-value", input=e, expected=x, observed=r, replay=rep)
     # unbounded recursion: must end in the out-of-stack error (delivered to the embedding caller: the VM loop is left,
     # no Scheme handler runs), not in a sanitizer report or a signal
     oos = "(import (scheme base) (scheme write)) %s (write (down %d))" % (pre, 2 * mx)
@@ -656,7 +742,8 @@ def stack_stream(ctx, exe, d, rng, consts):
     if "out of stack" not in (r.stderr + r.stdout) or "AddressSanitizer" in r.stderr or r.returncode in (97, -11, -6, 139, 134):
         ctx.violation("stack:no-out-of-stack-error", input="(down %d)" % (2 * mx), expected="out of stack space error, clean exit",
                       observed="rc=%s %s" % (r.returncode, (r.stderr or "")[-400:]), replay=replay_cmd(d, "(begin %s (down %d))" % (pre, 2 * mx)))
-    ctx.sample(dict(kind="stack", expr=exprs[0], expected=exp[0], impl=io[0]))
+    if first:
+        ctx.sample(dict(kind="stack", expr=first[0], expected=first[1], impl=first[2]))
 
 
 def _z(s):
